@@ -196,7 +196,8 @@ def gen(desc):
                 yield dict(kind="reverse", pattern=row, prefix=pre, key=[rng.choice(POOL) for _ in range(4)])
             yield dict(kind="negate", row=row, prefix=rng.choice(PREFIXES[:4]))
             if " " in row and "/" not in row and "<" not in row:
-                yield dict(kind="text", row=row, noisy=_noisy_blanks(row, rng), prefix=rng.choice(PREFIXES[:4]))
+                yield dict(kind="text", row=row, noisy=_noisy_blanks(row, rng), prefix=rng.choice(PREFIXES[:4]),
+                           psep=rng.choice([None, "  ", "\t", " \t", " ", "   "]))
     else:
         rng = random.Random(desc["seed"])
         for _ in range(desc["n"]):
@@ -214,7 +215,8 @@ def gen(desc):
             else:
                 yield dict(kind="negate", row=row, prefix=pre)
             if " " in row and rng.random() < 0.5:
-                yield dict(kind="text", row=row, noisy=_noisy_blanks(row, rng), prefix=pre)
+                yield dict(kind="text", row=row, noisy=_noisy_blanks(row, rng), prefix=pre,
+                           psep=rng.choice([None, "  ", "\t", " \t", " ", "   "]))
 
 
 def _noisy_blanks(row, rng):
@@ -228,27 +230,36 @@ def _noisy_blanks(row, rng):
     return out
 
 
-def _compile_line(line, vendor):
-    """what the three real rule-text compilers make of one rule line: the observable parts of the compiled rule"""
+PARAM_BY_KIND = {"ordering": "%order_reverse=1", "acl": "%cant_delete=1 %prio=7", "patching": "%logic=common.permanent"}
+
+
+def _compile_line(line, vendor, psep=None):
+    """what the three real rule-text compilers make of one rule line (with `psep`: followed by a parameter of the
+    compiler's own scheme after that separator): the observable parts of the compiled rule"""
     from annet.annlib.rbparser import acl, ordering
     from annet.rulebook import patching as rbp
+
+    def text(kind):
+        return line + ((psep + PARAM_BY_KIND[kind]) if psep is not None else "") + "\n"
     out = {}
     try:
-        r = next(iter(ordering.compile_ordering_text(line + "\n", vendor).values()))
-        out["ordering"] = [r["attrs"]["direct_regexp"].pattern, r["attrs"]["reverse_regexp"].pattern]
+        r = next(iter(ordering.compile_ordering_text(text("ordering"), vendor).values()))
+        out["ordering"] = [r["attrs"]["direct_regexp"].pattern, r["attrs"]["reverse_regexp"].pattern,
+                           bool(r["attrs"]["order_reverse"])]
     except Exception as e:  # noqa
         out["ordering"] = type(e).__name__
     try:
-        rules = acl.compile_acl_text(line + "\n", vendor)
+        rules = acl.compile_acl_text(text("acl"), vendor)
         r = next(iter(rules["local"].values()))
         a = r["attrs"]
-        out["acl"] = [a["regexp"].pattern, a["reverse_regexp"].pattern if a.get("reverse_regexp") is not None else None]
+        out["acl"] = [a["direct_regexp"].pattern, a["reverse_regexp"].pattern if a.get("reverse_regexp") is not None else None,
+                      list(a["cant_delete"]), a["prio"]]
     except Exception as e:  # noqa
         out["acl"] = type(e).__name__
     try:
-        rules = rbp.compile_patching_text(line + "\n", vendor)
+        rules = rbp.compile_patching_text(text("patching"), vendor)
         r = next(iter(rules["local"].values()))
-        out["patching"] = [r["attrs"]["regexp"].pattern, r["attrs"]["reverse"]]
+        out["patching"] = [r["attrs"]["regexp"].pattern, r["attrs"]["reverse"], r["attrs"]["logic"].__name__]
     except Exception as e:  # noqa
         out["patching"] = type(e).__name__
     return out
@@ -261,7 +272,8 @@ def impl(case):
     if k == "text":
         setup_worker()
         vendor = PREFIX_VENDOR[case["prefix"]]
-        return {"noisy": _compile_line(case["noisy"], vendor), "clean": _compile_line(case["row"], vendor)}
+        return {"noisy": _compile_line(case["noisy"], vendor, case.get("psep")),
+                "clean": _compile_line(case["row"], vendor, "  " if case.get("psep") is not None else None)}
     if k == "match":
         try:
             rx = syntax.compile_row_regexp(case["pattern"])
